@@ -62,7 +62,7 @@ func newL2Server(tokenAuth bool, sendBuf int) *l2server {
 	s := &l2server{logs: map[string][]string{}}
 	// all five device classes enabled individually: the redirect flags then encode as 0, the value a lazily
 	// initialised cache would take for "not computed yet"
-	gw := &protocol.Gateway{TokenAuth: tokenAuth, SendBuf: sendBuf,
+	gw := &protocol.Gateway{TokenAuth: tokenAuth, SendBuf: sendBuf, IdleTimeout: 30,
 		RedirectFlags: protocol.RedirectFlags{Clipboard: true, Port: true, Drive: true, Printer: true, Pnp: true}}
 	tun := func(ctx context.Context) *protocol.Tunnel {
 		t, _ := ctx.Value(protocol.CtxTunnel).(*protocol.Tunnel)
